@@ -346,7 +346,24 @@ def _pg_name(ge, gn):
 def _degenerate_antialias(case, io):
     """A requested spacing / region / shape under which the antialiasing block means are collinear or fewer than three (e.g. two data
     columns averaged into one block column): Qhull refuses the degenerate hull — outside the property (non-degenerate hulls)."""
-    return (case["fn"] == "pg" and C.is_err(io) and "QhullError" in io[1] and case["args"][5] and bool(case["args"][6]))
+    if not (case["fn"] == "pg" and C.is_err(io) and "QhullError" in io[1] and case["args"][5]):
+        return False
+    if case["args"][6]:
+        return True
+    # default region / shape: degenerate only if the block means themselves (blocks of one output cell over the region of the projected data)
+    # are fewer than three or collinear - a few valid cells next to a NaN margin can fall into two blocks
+    ge, gn, vals, proj, method, antialias, kw = case["args"]
+    try:
+        f = PROJS[proj[0]](proj[1])
+        cells = [(x, y, vals[i][j]) for i, y in enumerate(gn) for j, x in enumerate(ge) if vals[i][j] is not None]
+        pe, pn = f(np.array([c[0] for c in cells]), np.array([c[1] for c in cells]))
+        dreg = vd.get_region((pe, pn))
+        osp = vd.coordinates.shape_to_spacing(dreg, (len(gn), len(ge)))
+        bc, _ = vd.BlockReduce(np.mean, spacing=osp, region=dreg).filter((pe, pn), np.array([c[2] for c in cells]))
+        pts_ = np.column_stack([bc[0] - bc[0].mean(), bc[1] - bc[1].mean()])
+        return len(bc[0]) < 3 or np.linalg.matrix_rank(pts_, tol=1e-9 * max(1.0, float(np.abs(pts_).max()))) < 2
+    except Exception:  # noqa: BLE001
+        return False
 
 
 def compare(case, io, mo):
